@@ -6,7 +6,7 @@ from ecdsa import der
 from ecdsa.curves import UnknownCurveError
 from ecdsa.keys import MalformedPointError
 
-from vf import lib, points, sigs, toy
+from vf import gen, lib, points, sigs, toy
 from vf.lib import Point, PointJacobi
 from vf.ref import der_ref, nt, sec1
 
@@ -65,7 +65,7 @@ def judge_bytes(ctx, curve, dom, data, cls, key, container="string", enc_hint="?
     try:
         if container == "string":
             _BL["i"] += 1
-            arg = data if _BL["i"] % 4 else (bytearray(data) if _BL["i"] % 8 else memoryview(bytes(data)))
+            arg = data if _BL["i"] % 3 else gen.pick_container(data, _BL["i"] // 3, wide=False)[1]
             vk = ecdsa.VerifyingKey.from_string(arg, curve, hashlib.sha256)
         elif container == "der":
             vk = ecdsa.VerifyingKey.from_der(der_ref.spki(tuple(curve.oid), data), hashlib.sha256)
